@@ -209,14 +209,23 @@ def replay_beh(chk, label, root, beh, facts, cheap, rnd):
                 got = "ok"
                 if facts.get("trunc"):
                     from passlib.exc import PasswordTruncateError
-                    try:
-                        with ForcedRng(st["x"]):
-                            cls.hash("x" * (facts["trunc"] + 1))
-                        refused = False
-                    except PasswordTruncateError:
-                        refused = True
-                    if refused != st["tree"][st["node"] - 1]["te"]:
-                        got = "truncate-policy=" + str(refused)
+                    n = facts["trunc"]
+                    # the limit counts BYTES: one byte too many as text, as bytes, as fewer characters of two bytes each, as bytes that are no text
+                    probes = [("text", "x" * (n + 1)), ("bytes", b"x" * (n + 1)), ("wide-text", "\xfc" * (n // 2 + 1)), ("non-utf8-bytes", b"\xff\xfe" * (n // 2 + 1))]
+                    for pname, ppw in probes:
+                        try:
+                            cls.hash(ppw[:1] * 2)
+                        except Exception:
+                            continue            # this kind of password is not admissible for the hasher at all
+                        try:
+                            with ForcedRng(st["x"]):
+                                cls.hash(ppw)
+                            refused = False
+                        except PasswordTruncateError:
+                            refused = True
+                        if refused != st["tree"][st["node"] - 1]["te"]:
+                            got = f"truncate-policy({pname})=" + str(refused)
+                            break
                 detail.update(hash=h, rounds=rr, salt_size=ss)
                 if rr != r:
                     got = f"rounds={rr}"
@@ -249,11 +258,22 @@ def replay_beh(chk, label, root, beh, facts, cheap, rnd):
                     tmpl = root._unwrap_hash(tmpl)
                 o = getattr(root, "wrapped", root).from_string(tmpl)
                 o.rounds = r
-                hs = o.to_string()
-                if hasattr(cls, "wrapped"):
-                    hs = cls._wrap_hash(hs)
-                got = "True" if cls.needs_update(hs) else "False"
-                detail["hash"] = hs
+                got = None
+                # the stored hash may carry any identifier of the format: the verdict on its cost is the same for each
+                for ident in (getattr(type(o), "ident_values", None) or (None,)):
+                    if ident == "$2x$":
+                        continue                # (documented as not supported)
+                    if ident is not None:
+                        o.ident = ident
+                    hs = o.to_string()
+                    if hasattr(cls, "wrapped"):
+                        hs = cls._wrap_hash(hs)
+                    g1 = "True" if cls.needs_update(hs) else "False"
+                    if got is None or g1 != exp:
+                        got = g1
+                        detail["hash"] = hs
+                    if g1 != exp:
+                        break
             except Exception as e:
                 got, detail["err"] = "Internal:" + type(e).__name__, str(e)[:120]
         hist.append(dict(op=op, node=st["node"], kw={a: b for a, b in st["kw"].items() if b not in (UNSET, "unset", 0)} if op == "using" else None,
